@@ -33,6 +33,7 @@ type c47Finding struct {
 	sig    string
 	what   string
 	replay map[string]string
+	fixed  bool // a class fixed in /repo: reproducing it again is a violation, never an exclusion
 }
 
 var (
@@ -113,11 +114,10 @@ func c47Probe(baseDir string) (c47Div, []c47Finding, error) {
 			}
 			if got[0] != got[1] || cur[0] != cur[1] {
 				div.prefixNamespace = true
-				fs = append(fs, c47Finding{"kv-prefix-scan-namespace",
-					fmt.Sprintf("after UpsertKvPair(%q,\"v\") LookupKeysByPrefix(%q,10,{},0) fills %s on sqlite but %s on pebble, and LookupKeysByPrefixCursor returns %s on sqlite but %s on pebble: "+
-						"generickv scans [prefix, prefix+1) of the raw key space although kv pairs are stored under the \"xc-\" namespace (appKvKey), so the pebble backend never finds a stored box by prefix",
-						key, c47BoxKey(1, ""), got[0], got[1], cur[0], cur[1]),
-					map[string]string{"key": c47Hex([]byte(key)), "sqlite": got[0], "pebble": got[1]}})
+				fs = append(fs, c47Finding{sig: "kv-prefix-scan-namespace", what: fmt.Sprintf("after UpsertKvPair(%q,\"v\") LookupKeysByPrefix(%q,10,{},0) fills %s on sqlite but %s on pebble, and LookupKeysByPrefixCursor returns %s on sqlite but %s on pebble: "+
+					"generickv scans [prefix, prefix+1) of the raw key space although kv pairs are stored under the \"xc-\" namespace (appKvKey), so the pebble backend never finds a stored box by prefix",
+					key, c47BoxKey(1, ""), got[0], got[1], cur[0], cur[1]),
+					replay: map[string]string{"key": c47Hex([]byte(key)), "sqlite": got[0], "pebble": got[1]}})
 			}
 			return nil
 		})
@@ -148,11 +148,9 @@ func c47Probe(baseDir string) (c47Div, []c47Finding, error) {
 				r.Close()
 			}
 			if got[0] != got[1] {
-				div.lookupOnlineXff = true
-				fs = append(fs, c47Finding{"kv-lookuponline-round-xff",
-					fmt.Sprintf("one online entry (updround 1): LookupOnline(addr, 254 / 255) gives %s on sqlite but %s on pebble: onlineAccountLatestRangePrefix makes the upper bound inclusive with high[len-1]++ "+
-						"without carry, so for every round whose low byte is 0xff the bound wraps below the lower bound and the account is reported as not online", got[0], got[1]),
-					map[string]string{"sqlite": got[0], "pebble": got[1]}})
+				fs = append(fs, c47Finding{sig: "kv-lookuponline-round-xff", fixed: true, what: fmt.Sprintf("one online entry (updround 1): LookupOnline(addr, 254 / 255) gives %s on sqlite but %s on pebble: onlineAccountLatestRangePrefix makes the upper bound inclusive with high[len-1]++ "+
+					"without carry, so for every round whose low byte is 0xff the bound wraps below the lower bound and the account is reported as not online", got[0], got[1]),
+					replay: map[string]string{"sqlite": got[0], "pebble": got[1]}})
 			}
 			return nil
 		})
@@ -192,11 +190,9 @@ func c47Probe(baseDir string) (c47Div, []c47Finding, error) {
 				r.Close()
 			}
 			if got[0] != got[1] {
-				div.onlineDeleteInclusive = true
-				fs = append(fs, c47Finding{"kv-onlinedelete-inclusive",
-					fmt.Sprintf("online entries at updround 1 and 3, OnlineAccountsDelete(forgetBefore=3): history is [%s] on sqlite (rows with updround < 3, keeping the latest of them) but [%s] on pebble: "+
-						"the KV writer scans onlineAccountBalanceForRoundRangePrefix(3), which includes round 3 itself, so it treats updround <= forgetBefore as prunable", got[0], got[1]),
-					map[string]string{"sqlite": got[0], "pebble": got[1]}})
+				fs = append(fs, c47Finding{sig: "kv-onlinedelete-inclusive", fixed: true, what: fmt.Sprintf("online entries at updround 1 and 3, OnlineAccountsDelete(forgetBefore=3): history is [%s] on sqlite (rows with updround < 3, keeping the latest of them) but [%s] on pebble: "+
+					"the KV writer scans onlineAccountBalanceForRoundRangePrefix(3), which includes round 3 itself, so it treats updround <= forgetBefore as prunable", got[0], got[1]),
+					replay: map[string]string{"sqlite": got[0], "pebble": got[1]}})
 			}
 			return nil
 		})
@@ -229,10 +225,9 @@ func c47Probe(baseDir string) (c47Div, []c47Finding, error) {
 			}
 			if got[0] != got[1] {
 				div.onlineTopOrder = true
-				fs = append(fs, c47Finding{"kv-onlinetop-order",
-					fmt.Sprintf("addr1 online with 5 Algos since round 1, addr2 with 3 Algos since round 2: AccountsOnlineTop(rnd=2, offset=0, n=1) is %s on sqlite but %s on pebble: the KV reader walks the "+
-						"(round, balance, address) index backwards, i.e. orders by update round before balance, applies offset/n to raw history rows instead of accounts, and does not drop accounts whose latest entry has balance 0", got[0], got[1]),
-					map[string]string{"sqlite": got[0], "pebble": got[1]}})
+				fs = append(fs, c47Finding{sig: "kv-onlinetop-order", what: fmt.Sprintf("addr1 online with 5 Algos since round 1, addr2 with 3 Algos since round 2: AccountsOnlineTop(rnd=2, offset=0, n=1) is %s on sqlite but %s on pebble: the KV reader walks the "+
+					"(round, balance, address) index backwards, i.e. orders by update round before balance, applies offset/n to raw history rows instead of accounts, and does not drop accounts whose latest entry has balance 0", got[0], got[1]),
+					replay: map[string]string{"sqlite": got[0], "pebble": got[1]}})
 			}
 			return nil
 		})
@@ -269,10 +264,9 @@ func c47Probe(baseDir string) (c47Div, []c47Finding, error) {
 			}
 			if got[0] != got[1] {
 				div.onlineAllRound = true
-				fs = append(fs, c47Finding{"kv-onlineall-round",
-					fmt.Sprintf("store at round 7 with one online entry: the item returned by OnlineAccountsAll(0) has %s on sqlite but %s on pebble (dualdriver compares the items with cmp.Equal, so the dual store "+
-						"reports ErrInconsistentResult at every ledger start past round 0); no caller reads the field", got[0], got[1]),
-					map[string]string{"sqlite": got[0], "pebble": got[1]}})
+				fs = append(fs, c47Finding{sig: "kv-onlineall-round", what: fmt.Sprintf("store at round 7 with one online entry: the item returned by OnlineAccountsAll(0) has %s on sqlite but %s on pebble (dualdriver compares the items with cmp.Equal, so the dual store "+
+					"reports ErrInconsistentResult at every ledger start past round 0); no caller reads the field", got[0], got[1]),
+					replay: map[string]string{"sqlite": got[0], "pebble": got[1]}})
 			}
 			return nil
 		})
@@ -288,25 +282,29 @@ func c47Probe(baseDir string) (c47Div, []c47Finding, error) {
 // TestVerif_C47_Known reproduces the known divergences of the KV backend from their minimal cases.
 func TestVerif_C47_Known(t *testing.T) {
 	vk := vkBegin(t, "C47")
-	vk.Rule("minimal frozen cases of the divergence classes between the sqlite and the pebble tracker stores; non-trivial = the two real stores answer the same call differently; distinct by class")
+	vk.Rule("minimal frozen cases of the divergence classes found between the sqlite and the pebble tracker stores (3 listed as known, 2 fixed in /repo and kept as regressions); non-trivial = the case drives both real stores through the call that differed; distinct by class")
 	_, fs, err := c47Probe(t.TempDir())
 	if err != nil {
 		t.Fatalf("probe failed: %v", err)
 	}
-	all := []string{"kv-prefix-scan-namespace", "kv-lookuponline-round-xff", "kv-onlinedelete-inclusive", "kv-onlinetop-order", "kv-onlineall-round"}
+	all := []string{"kv-prefix-scan-namespace", "kv-onlinetop-order", "kv-onlineall-round", "kv-lookuponline-round-xff", "kv-onlinedelete-inclusive"}
 	seen := map[string]bool{}
 	for _, f := range fs {
 		seen[f.sig] = true
 		vk.Case(true, f.sig)
-		vk.Label("reproduced: " + f.sig)
 		vk.Sample(true, map[string]interface{}{"signature": f.sig, "what": f.what, "case": f.replay})
+		if f.fixed {
+			// fixed in /repo (424ce1b7c3, cf0d22956e): frozen regression
+			vk.Failf(f.replay, "regression of fixed finding %s: %s", f.sig, f.what)
+		}
+		vk.Label("reproduced: " + f.sig)
 		vk.Known(f.sig, f.what, f.replay)
 	}
 	for _, s := range all {
 		if !seen[s] {
-			vk.Case(false, s)
-			vk.Label("not reproduced on this tree (backends agree on the minimal case): " + s)
-			vk.Sample(false, map[string]string{"signature": s, "status": "not reproduced"})
+			vk.Case(true, s)
+			vk.Label("backends agree on the minimal case: " + s)
+			vk.Sample(false, map[string]string{"signature": s, "status": "backends agree"})
 		}
 	}
 }
@@ -666,8 +664,12 @@ func TestVerif_C47_Backends(t *testing.T) {
 	if err != nil {
 		t.Fatalf("probe failed: %v", err)
 	}
-	vk.Labelf("divergence classes excluded on this tree: prefix=%v lookupOnlineXff=%v onlineDelete=%v onlineTop=%v onlineAllRound=%v",
-		div.prefixNamespace, div.lookupOnlineXff, div.onlineDeleteInclusive, div.onlineTopOrder, div.onlineAllRound)
+	// a class is excluded only when it reproduces AND is listed as known; a reproduced but unlisted class (or a returned
+	// fixed one) is therefore caught by the comparisons below
+	div.prefixNamespace = div.prefixNamespace && vkKnownListed("C47", "kv-prefix-scan-namespace")
+	div.onlineTopOrder = div.onlineTopOrder && vkKnownListed("C47", "kv-onlinetop-order")
+	div.onlineAllRound = div.onlineAllRound && vkKnownListed("C47", "kv-onlineall-round")
+	vk.Labelf("listed known classes excluded on this tree: prefix=%v onlineTop=%v onlineAllRound=%v", div.prefixNamespace, div.onlineTopOrder, div.onlineAllRound)
 	rapid.Check(t, func(rt *rapid.T) {
 		genesis := c47GenGenesis(rt)
 		st, dir, err := c47OpenStores(baseDir, genesis)
